@@ -720,8 +720,11 @@ class CallMixin:
                 return self.call_contract(c, [recv] + list(args), kwargs, st)
             from .values import AbsV, AbsSeq, SymDict
             if isinstance(o, SymDict) and name == "get" and is_int(args[0]) and (len(args) == 1 or args[1] is None):
-                k = int_term(args[0])
+                k = z3.simplify(int_term(args[0]) + o.shift)
+                st.add_index(k)
                 return Sym("optline", z3.If(z3.Select(o.present, k), z3.Select(o.val, k), z3.IntVal(-1)))
+            if isinstance(o, SymDict) and name == "items" and not args:
+                return ("symdict_items", recv)
             if isinstance(o, AbsV) and getattr(self.contract, "abstract", False) and name == "get":
                 return OpaqueV("dict value")
             if isinstance(o, AbsV) and getattr(self.contract, "abstract", False) and name in ("items", "keys", "values"):
